@@ -110,7 +110,7 @@ REQUIRED = [
     'pipe_make_shard_checks', 'pipe_gen2_checks', 'pipe_original_continues_checks',
     'pipe_sliced_checks', 'double_restore_checks',
     'thread_checks', 'thread_k1_checks', 'thread_k2_checks', 'thread_k3_checks',
-    'thread_original_continues_checks', 'second_generation_cases',
+    'thread_original_continues_checks', 'second_generation_cases', 'rebatch_restore_checks',
 ]
 EXHAUSTIVE = {'quick': True, 'thorough': True}
 CHUNK_TIMEOUT_S = {'quick': 240, 'thorough': 3000}
@@ -1051,6 +1051,105 @@ def _pack(items, weights, bins):
     loads[b] += weights[i]
   return [o for o in out if o]
 
+K_REBATCH = 'restore-loses-rows-held-by-the-rebatching-buffer'
+
+
+class _RowsAgg:
+  """Exact aggregate over a batch of rows: [sum, count, xor]."""
+
+  def create_state(self):
+    return [0, 0, 0]
+
+  def update_state(self, state, xs):
+    s, c, x = state
+    for v in xs:
+      s, c, x = s + int(v), c + 1, x ^ L._h(v)  # pylint: disable=protected-access
+    return [s, c, x]
+
+  def merge_states(self, states):
+    out = [0, 0, 0]
+    for st in states:
+      out = [out[0] + st[0], out[1] + st[1], out[2] ^ st[2]]
+    return out
+
+  def get_result(self, state):
+    return list(state)
+
+
+def _plus7(xs):
+  return [int(x) + 7 for x in xs]
+
+
+def check_rebatch_case(ctx, case):
+  """A re-batching operator between the source and the consumer: rows that were
+  read from the source but still sit in the re-batching buffer at the checkpoint
+  must be delivered (and aggregated) by the restored run."""
+  from ml_metrics._src.chainables import io, transform
+  sizes, fbs, bs, cut = case['sizes'], case['fbs'], case['bs'], case['cut']
+  recs, pos = [], 0
+  for sz in sizes:
+    recs.append(list(range(pos, pos + sz)))
+    pos += sz
+
+  def make():
+    t = transform.TreeTransform.new().data_source(io.SequenceDataSource(recs))
+    t = t.apply(fn=_plus7, fn_batch_size=fbs, batch_size=bs)
+    return t.aggregate(fn=_RowsAgg(), output_keys='agg')
+
+  rows = [r + 7 for rec in recs for r in rec]
+  want_agg = {'agg': L.agg_of(rows)}
+  try:
+    it0 = make().make().iterate()
+    full = [list(map(int, b)) for b in it0]
+    agg0 = L.norm_agg(it0.agg_result)
+  except Exception as e:  # pylint: disable=broad-exception-caught
+    _viol(ctx, 'exception', case, {'where': 'uninterrupted', 'err': repr(e)},
+          'rebatch-uninterrupted-run-raises')
+    return
+  ctx.case(('rebatch', tuple(sizes), fbs, bs, cut), cut > 0 and len(sizes) >= 2)
+  if [r for b in full for r in b] != rows or agg0 != want_agg:
+    ctx.inconclusive_case('uninterrupted re-batching run differs from the model', case)
+    return
+  if cut > len(full):
+    return
+  ctx.count('rebatch_restore_checks')
+  try:
+    it = make().make().iterate()
+    before = [list(map(int, next(it))) for _ in range(cut)]
+    state = L.transport(it.state, case.get('xf', 'deepcopy'))
+    it2 = make().make().iterate().from_state(state)
+    after = [list(map(int, b)) for b in it2]
+    got_agg = L.norm_agg(it2.agg_result)
+  except Exception as e:  # pylint: disable=broad-exception-caught
+    _viol(ctx, 'exception', case, {'where': 'restore', 'err': repr(e)},
+          f'rebatch-restore-raises-{type(e).__name__}')
+    return
+  got_rows = [r for b in before + after for r in b]
+  if got_rows != rows:
+    missing = [r for r in rows if r not in got_rows]
+    dup = sorted({r for r in got_rows if got_rows.count(r) > 1})
+    _viol(ctx, 'elements', case,
+          {'delivered_before': before, 'after_restore': after, 'missing_rows': missing[:10],
+           'repeated_rows': dup[:10], 'uninterrupted': full},
+          K_REBATCH if (missing and not dup) else 'rebatch-restore-elements-differ')
+  elif got_agg != want_agg:
+    _viol(ctx, 'aggregate', case, {'got': got_agg, 'want': want_agg},
+          'rebatch-restore-aggregate-differs')
+
+
+def rebatch_cases(rng, count):
+  out = []
+  for _ in range(count):
+    n = rng.randint(1, 6)
+    sizes = [rng.randint(1, 4) for _ in range(n)]
+    fbs = rng.choice([0, 0, 1, 2, 3, 5])
+    bs = rng.choice([1, 2, 3, 4, 7])
+    total = sum(sizes)
+    n_out = -(-total // bs)
+    out.append({'part': 'rebatch', 'sizes': sizes, 'fbs': fbs, 'bs': bs,
+                'cut': rng.randint(0, n_out), 'xf': rng.choice(XFS)})
+  return out
+
 
 def plan(tier, seed):
   specs = []
@@ -1094,6 +1193,10 @@ def plan(tier, seed):
   per = 21 if not thorough else 150
   for j in range(nthr):
     specs.append({'mode': 'thr', 'index': j, 'count': per, 'rseed': seed})
+  # ---- re-batching between source and consumer ----------------------------------------
+  for j in range(2 if not thorough else 8):
+    specs.append({'mode': 'rebatch', 'index': j, 'rseed': seed,
+                  'count': 400 if not thorough else 4000})
   # ---- seeded random larger cases ---------------------------------------------------------
   nrand = 8 if not thorough else 32
   for j in range(nrand):
@@ -1183,6 +1286,10 @@ def run_chunk(ctx, spec):
       check_thread_case(ctx, case)
   elif mode == 'random':
     _run_random(ctx, spec)
+  elif mode == 'rebatch':
+    rng = random.Random(spec['rseed'] * 31337 + spec['index'] * 17 + 3)
+    for case in rebatch_cases(rng, spec['count']):
+      check_rebatch_case(ctx, case)
   else:
     raise ValueError(mode)
 
@@ -1197,6 +1304,8 @@ def run_case(ctx, case):
     check_pipe_case(ctx, case)
   elif part == 'thr':
     check_thread_case(ctx, case)
+  elif part == 'rebatch':
+    check_rebatch_case(ctx, case)
   elif part == 'dbl':
     check_double_restore_case(ctx, case)
   else:
